@@ -3,6 +3,16 @@ NOTES = ("All claims are level 'other': each check decides structural necessary 
          "Genuine defects found are repaired by 'fix:' commits in /repo or listed in /verif/known_findings.json.")
 PENDING = "static rules for this property are designed (DESIGN.md §3) but not yet implemented in this revision; not claimed until they are"
 CLAIMS = {
+ "C18": {
+  "text": "Decides for every Go-level keyvalue.Transaction implementation found by type (mem.transaction, keyvalue.unsafeSerialTransaction), on every path of Get/GetHandler/Set/SetHandler: exactly one result recorded and one id allocated (incl. the aborted path), recorded Op == returned id, store access only on the not-aborted edge, handler error flows into the recorded Err; Commit/Abort release the mutex the constructor left locked on every path and idempotently (sync.Once); Commit returns results in id order; every transaction begun in package keyvalue is committed or aborted on every path. These are the mechanisms behind 'one result per call, in order; store always released'; isolation between concurrent transactions and value-level Get-reflects-Set are NOT decided.",
+  "note": "Trusted: go/types+go/ssa and the rule code. Assumes partial correctness (A6) and that names reaching setFileTxn were validated by callers (A7, checked separately under C04).",
+  "technique": "static analysis: bounded path enumeration with per-path counters over SSA, dominator edge facts, lockset-at-return summaries, def-use",
+ },
+ "C17": {
+  "text": "Decides that every dereference of a pointer field some method sets to nil (keyvalue.file.fileData, via own methods, unexported helpers and wrapper types) is dominated by a non-nil test whose failing edge returns an ErrClosed-class error; that every io/fs.File implementation has a closed mark written by Close (or delegates to an inner handle) which every other method consults; and that store write-backs reachable from handle mutators are conditional on the path still existing (currently a known finding). This is 'closed handles fail cleanly, never panic' as visible on every path; handle independence over histories is NOT decided.",
+  "note": "Trusted: go/types+go/ssa and the rule code; closers are not called from sibling methods (checked).",
+  "technique": "static analysis: contradiction rule (field nil-ed by one method, dereferenced by siblings) with dominator facts keyed by access path, error-class abstraction, call-graph reachability to store writes",
+ },
  "C19": {
   "text": "Decides, for every Blob implementation found by type (blob.Bytes; idbblob.Blob under js/wasm), that every parameter-dependent slice/make bound is entailed by dominating guards (difference constraints), negatives are rejected with an error before any mutation, View/Slice select data[start:end], View aliases and Slice copies, no interface dispatch or re-locking under the blob mutex, data stores are followed by the atomic length mirror, and the typed-array blob never stores an unvalidated negative length. This is the part of 'errors not panics / never modifies / aliasing structure / Set terminates' that is visible on every path; byte-exact model equivalence over operation sequences is NOT decided.",
   "note": "Trusted: go/types+go/ssa of x/tools v0.29.0 and the rule code; assumes sequential reading of one receiver's length inside a method (A5), stdlib/JS-engine contracts (A2).",
